@@ -22,8 +22,8 @@ from harness import common, gasol
 from gen import gen_fold
 
 
-OBDIR = os.path.join(common.WORK, "c03_ob")
-CASEDIR = os.path.join(common.WORK, "c03_cases")
+OBDIR = os.path.join(common.WORK, "c03_ob_%d" % os.getpid())
+CASEDIR = os.path.join(common.WORK, "c03_cases_%d" % os.getpid())
 
 
 def classify(obs, known, modes, tag="ob", timeout=400):
@@ -363,7 +363,7 @@ def model_compare(cases, reals, chunk=400, timeout=600):
     os.makedirs(CASEDIR)
     names = []
     for ci in range(0, len(cases), chunk):
-        name = "c03_cases_%03d" % (ci // chunk)
+        name = "c03_cases_%d_%03d" % (os.getpid(), ci // chunk)
         pairs = ["(%s,\n  %s)" % (model_expr(c), expected_expr(c, r)) for c, r in zip(cases[ci:ci + chunk], reals[ci:ci + chunk])]
         body = CASES_HEADER + "Definition cases : list (out * out) := [\n" + ";\n".join(pairs) + "].\n" \
             "Definition cs := Eval vm_compute in codes cases.\n" \
